@@ -42,6 +42,14 @@ def plan(plan, tier, seed):
         plan.anchor_errors.append((n8, str(e)))
     plan.dropped.append(vC18.common_cols_fn.__doc__.strip())
     plan.assumptions.append("common columns: the HashMap collected from (name, id) pairs maps a name to AN id carrying it and misses only names no entry carries (std HashMap / collect; contracts in units/vC18.py COMMON_MODEL, named `inv`, not defined)")
+    n9 = "C18.verus.make_optional_kind.optional_once"
+    plan.ob(n9, "verus", "proved", functions=["make_optional_kind (whole body)"],
+            what="the kind of a column that can be missing is `kind?`; a kind that is already optional is left as it is (never doubly optional)")
+    try:
+        plan.verus.append(VerusUnit("c18_optional_kind", vC18.optional_kind_unit(text), {"make_optional_kind": n9}, ["canary_optk"]))
+    except AnchorLost as e:
+        plan.anchor_errors.append((n9, str(e)))
+    plan.dropped.append(vC18.optional_kind_unit.__doc__.strip())
     n7 = "C18.verus.TableAccessScalarF.solve"
     plan.ob(n7, "verus", "proved", functions=["src/interpreter/src/stdlib/access/table.rs: TableAccessScalarF::solve"],
             what="selecting ONE table row by a scalar index: the record holds, for every column, the element of exactly that row; an index that addresses no row (0, beyond the last row) is an error (kernel panic), never another row")
@@ -82,5 +90,5 @@ def plan(plan, tier, seed):
         "table columns modelled as contracts/common/matmodel.rs column vectors of u64; Matrix::index1d / set_index1d / resize_vertically as stated in the model (index(ix-1) / v[i] = x with their panics as early None; resize gives the requested length)",
         "the contract lists rows in the order the code produces them (stronger than the property's multiset): a reordering that keeps the multiset would fail this obligation",
     ]
-    plan.undecided_clauses += ["C18: make_optional_kind itself, that the name index behaves as std documents (assumed), table literal construction, the range / mask row selections' fast paths if any are added; join results are not re-evaluated on step (solve swallows errors)"]
+    plan.undecided_clauses += ["C18: that the name index behaves as std documents (assumed), table literal construction, the range / mask row selections' fast paths if any are added; join results are not re-evaluated on step (solve swallows errors)"]
     plan.level = "proof"
